@@ -44,6 +44,21 @@ Section Pkh.
       + exfalso. eapply find_key_complete; eauto using lookup_In.
   Qed.
 
+  (* tap leaves: the x-only key is found in tap_key_origins or in the tap_script_sigs made with it *)
+  Theorem resolve_pkh_tap_from_sig : forall xonly_of a h kl s,
+    lookup kl (i_tapsigs a) = Some s -> pkh_of (xonly_of kl) = h ->
+    exists k', resolve_pkh_tap pkh_of xonly_of a h = Some k' /\ pkh_of k' = h.
+  Proof.
+    intros xonly_of a h kl s Hl Hh. unfold resolve_pkh_tap.
+    destruct (find_key pkh_of h (i_taporigins a)) as [k1|] eqn:F1.
+    - exists k1. split; auto. apply (find_key_sound _ _ _ F1).
+    - destruct (find (fun kv => (pkh_of (xonly_of (fst kv)) =? h)%N) (i_tapsigs a)) as [[k2 v2]|] eqn:F2; simpl.
+      + exists (xonly_of k2). split; auto. apply find_some in F2. destruct F2 as [_ E]. simpl in E.
+        now apply N.eqb_eq in E.
+      + exfalso. pose proof (find_none _ _ F2 _ (lookup_In _ _ _ Hl)) as N0. simpl in N0.
+        apply N.eqb_neq in N0. congruence.
+  Qed.
+
   Hypothesis pkh_inj : forall k1 k2, pkh_of k1 = pkh_of k2 -> k1 = k2.   (* no hash160 collision *)
 
   Theorem resolve_pkh_is_signer : forall a h k s,
